@@ -12,6 +12,20 @@ def main():
     res = {'ok': None}
     try:
         args = json.loads(args_json)
+        if funcname == '__setup__':
+            try:
+                importlib.import_module(modname)
+                res['ok'] = True
+            except Exception as e:
+                tb = traceback.extract_tb(e.__traceback__)
+                res['ok'] = False
+                res['in_lark'] = bool(tb) and (os.sep + 'lark' + os.sep) in tb[-1].filename and 'vfw' not in tb[-1].filename
+                res['exc'] = ''.join(traceback.format_exception(type(e), e, e.__traceback__))[-3000:]
+                res['rec'] = {'why': 'setting up the parsers of this slice raised %s inside lark: %s' % (type(e).__name__, str(e)[:200]),
+                              'fkey': 'setup:%s:%s' % (type(e).__name__, tb[-1].name if tb else '?')}
+            with open(out, 'w') as f:
+                json.dump(res, f, default=repr)
+            return
         mod = importlib.import_module(modname)
         from vfw import hs
         fn = getattr(mod, funcname)
